@@ -672,6 +672,52 @@ func RunRibHistory(name string, cfg *RibCfg, steps []Step) (*Trace, error) {
 				}
 				return
 			}
+			if s.Gap != nil && s.Kind == "flush" {
+				// a Flush with a second writer let in at its first notification: the recording hook
+				// stays registered (the notifications are the subject), and the second writer's
+				// operation is started from inside the hook call
+				var once atomic.Bool
+				yDone := make(chan string, 1)
+				r.SetPostChangeHook(func(ot constants.OpType, ts int64, ni string, e ygot.ValidatedGoStruct) {
+					h.fn(ot, ts, ni, e)
+					if once.Swap(true) {
+						return
+					}
+					go func() {
+						defer func() {
+							if p := recover(); p != nil {
+								yDone <- fmt.Sprintf("crash %s %s", Describe(s.Gap.Op, s.Gap.Cls).Enc(), S(fmt.Sprint(p)))
+							}
+						}()
+						yDone <- runOp(*s.Gap)
+					}()
+					select {
+					case l := <-yDone:
+						yDone <- l
+					case <-time.After(25 * time.Millisecond):
+					}
+				})
+				nis := []string{}
+				for _, n := range s.NIs {
+					if _, ok := r.NetworkInstanceRIB(n); ok {
+						nis = append(nis, n)
+					}
+				}
+				err := r.Flush(nis)
+				t.Add("rib.flush %s => %s", LS(nis), B(err == nil))
+				if !once.Load() {
+					t.Add("%s", runOp(*s.Gap))
+				} else {
+					select {
+					case l := <-yDone:
+						t.Add("%s", l)
+					case <-time.After(wd(5 * time.Second)):
+						t.Add("hang")
+					}
+				}
+				r.SetPostChangeHook(h.fn)
+				return
+			}
 			switch s.Kind {
 			case "sethook":
 				r.SetPostChangeHook(h.fn)
